@@ -197,9 +197,14 @@ C06_EntitledNeverFails(x) ==
 \* C08
 C08_MintOnlyInBlocks(x) == IsTx(x) => Minted(x) = 0
 C08_MintBound_app(x) == Kind(x) = "Blocks"
+RewardCap(cfg, s) ==
+    IF s.pool.pledged = 0 THEN 0
+    ELSE IF s.pool.pledged < cfg.baseline
+         THEN Min2(cfg.blockReward, (s.pool.pledged * cfg.apyNum) \div (cfg.apyDen * (cfg.halvingPeriod \div 2)))
+         ELSE cfg.blockReward
 C08_MintBound(x, cfg) ==
     /\ Minted(x) >= 0
-    /\ Minted(x) <= x.out.blocks * cfg.blockReward
+    /\ Minted(x) <= x.out.blocks * RewardCap(cfg, x.pre)
     /\ (x.pre.pool.pledged = 0 => Minted(x) = 0)
     /\ x.post.pool.reward - x.pre.pool.reward = Minted(x)
 C08_ClaimExact_app(x) == Ok(x) /\ Kind(x) = "Claim" /\ x.pre.inexact = <<>> /\ x.post.inexact = <<>>
